@@ -270,6 +270,16 @@ func init() {
 		e.stubUsed("limiter configured by the harness to always grant (send budget is not the subject of this entry)")
 		return nil
 	}
+	// verifFreezeClock(true): no time passes from now on (every time.Now returns the same arbitrary reading)
+	h["verifFreezeClock"] = func(e *Exec, c *frame, fn *ssa.Function, a []Value) Value {
+		if on := a[0].(*Term); on.IsTrue() {
+			e.hostState["clock.frozen"] = e.timeNow()
+			e.stubUsed("clock frozen by the harness for part of the run (elapsed time between the events of that part is zero)")
+		} else {
+			delete(e.hostState, "clock.frozen")
+		}
+		return nil
+	}
 	h["verifEvent"] = func(e *Exec, c *frame, fn *ssa.Function, a []Value) Value {
 		e.event(strArg(e, a[0]))
 		return nil
